@@ -715,3 +715,12 @@ func c20ExecGen(c c20GenCase) kit.Outcome {
 func TestC20UidGen(t *testing.T) {
 	kit.Check(t, "C20", "TestC20UidGen", c20GenGen, c20ExecGen)
 }
+
+// FuzzC20UidText: the same generator and oracle as TestC20UidText under Go's coverage-guided fuzzer (thorough tier).
+func FuzzC20UidText(f *testing.F) { kit.FuzzOf(f, "C20", "TestC20UidText", c20GenText, c20ExecText) }
+
+// FuzzC20Names: the same generator and oracle as TestC20Names under Go's coverage-guided fuzzer (thorough tier).
+func FuzzC20Names(f *testing.F) { kit.FuzzOf(f, "C20", "TestC20Names", c20GenName, c20ExecName) }
+
+// FuzzC20P2P: the same generator and oracle as TestC20P2P under Go's coverage-guided fuzzer (thorough tier).
+func FuzzC20P2P(f *testing.F) { kit.FuzzOf(f, "C20", "TestC20P2P", c20GenPair, c20ExecPair) }
